@@ -326,6 +326,11 @@ class Ctx:
         self.prop, self.tier, self.seed = prop, tier, seed
         self.rng = random.Random(seed)
         self.t0 = time.time()
+        rd = os.path.join(VERIF, "replays")
+        if os.path.isdir(rd):
+            for f in os.listdir(rd):
+                if f.startswith(prop + "-"):
+                    os.remove(os.path.join(rd, f))
         self.violations = []       # (key, replay_obj, found_input)
         self.known_hits = []
         self.cov = {}
@@ -549,3 +554,22 @@ def run_property(spec, ctx, replay=None):
         if k not in ("obligations", "discharged"):
             cov[k] = v
     return ctx.finish(cov, list(spec.assumptions))
+
+
+def batch_evidence(ctx, prop, phase, goals, fails, evaluations, distinct_nontrivial, rule, modelled, samples, assumptions, extra=None):
+    """Evidence + exit for properties whose correspondence is one end-to-end batch rather than per-case oracle calls."""
+    names, ass = phase if phase else ([], {})
+    cov = {
+        "obligations": len(names) + len(goals),
+        "discharged": (len(names) if phase else 0) + len(goals) - len(fails),
+        "checker_cmd": f"make -C coq theories/Properties/{prop}.vo (coqc, full .vo build) + coqc on generated coq/cases/{prop}/cases_*.v "
+                       "(each goal closed by vm_compute; reflexivity)",
+        "trusted_base": TRUSTED_BASE_COMMON + [modelled,
+            "Print Assumptions: " + "; ".join(f"{n}: {'closed under the global context' if not a else ','.join(a)}" for n, a in ass.items())],
+        "theorems": names,
+        "evaluations": evaluations, "distinct_nontrivial": distinct_nontrivial, "rule": rule,
+        "traces_validated_against_impl": len(goals) - len(fails),
+        "exhaustive": False, "samples": samples,
+    }
+    cov.update(extra or {})
+    return ctx.finish(cov, list(assumptions))
